@@ -833,6 +833,25 @@ pub fn grid(quick: bool) -> Vec<Scenario> {
         ("fork", vec![sub(SubmitSpec::graph(fork, RqSpec::cpus(1)))]),
         ("mf0", vec![sub(arr(&[0, 1, 2], 1).max_fails(0))]),
         ("cl1", vec![sub(arr(&[0, 1], 1).crash_limit("1"))]),
+        // a multi-node task next to single-node ones
+        ("mn2", vec![sub(arr(&[0, 1], 1)), sub(SubmitSpec::array(&[0], RqSpec::nodes(2)))]),
+        // a task time limit
+        ("tl", vec![sub(arr(&[0, 1], 1).time_limit(10))]),
+        // request variants: one cpu or two cpus
+        (
+            "var",
+            vec![sub(arr(&[0, 1, 2], 1).variants(vec![RqSpec::cpus(1), RqSpec::cpus(2)]))],
+        ),
+        // open job: two submits, close
+        (
+            "open",
+            vec![
+                Req::OpenJob { max_fails: None },
+                sub(arr(&[0], 1).into_job(1)),
+                sub(arr(&[1], 1).into_job(1)),
+                Req::CloseJob(1),
+            ],
+        ),
     ];
     let mut v = Vec::new();
     for (wn, ws) in &workers {
